@@ -281,6 +281,10 @@ def go_harness(run_regex, env=None, timeout=1500, race=False, extra=None, files=
     """Run overlay-injected tests of package kcp built from /repo's working tree."""
     e = dict(GOENV)
     e.update(env or {})
+    if (e.get("VERIF_TIER") or os.environ.get("VERIF_TIER") or "quick") != "thorough":
+        # a quick harness run takes 10-90 s; one that hangs (a change that dead-locks the library or the
+        # harness) must be reported within minutes, not after the thorough tier's allowance
+        timeout = min(timeout, 600)
     cmd = [GO, "test", "-tags", "verif", "-overlay", overlay_file(files), "-vet=off", "-count=1",
            "-timeout", "%ds" % timeout, "-run", run_regex]
     if race:
